@@ -86,10 +86,14 @@ def render(c, key, seed_shape):
         dargs.append(pre + d)
         rargs.append(pre + r)
     attr = f"#[{ATTR[D]}({vlib.rust_str(lit)}" + "".join(", " + x for x in dargs) + ")]"
+    companion = None
     if shape == "variant":
-        decl = f"#[derive(derive_more::{D})]\npub enum S {{ {attr} V(&'static i32, &'static i32) }}"
+        # an attribute-less single-field variant FOLLOWS the attributed one: it prints as its field does (Debug: as std)
+        decl = f"#[derive(derive_more::{D})]\npub enum S {{ {attr} V(&'static i32, &'static i32), W(&'static i32) }}"
         ctor = "S::V(&A, &B)"
-        binds = "let (f0, f1) = match s { S::V(x, y) => (x, y) }; let _0 = f0; let _1 = f1;"
+        binds = "let (f0, f1) = match s { S::V(x, y) => (x, y), _ => unreachable!() }; let _0 = f0; let _1 = f1;"
+        companion = ('format!("{:?}", S::W(&A))', 'format!("W({:?})", A)') if D == "Debug" else \
+                    ('format!("{:%s}", S::W(&A))' % LET[D], 'format!("{:%s}", &A)' % LET[D])
         itself = ["*f0", "*f1"]
         refto = ["f0", "f1"]
     elif shape == "named":
@@ -116,6 +120,10 @@ def render(c, key, seed_shape):
             obj = "(&B)" if f == 0 else (itself[f - 1] if depth == 0 else refto[f - 1])
             docp.append('format!("{:%s}", %s)' % (LET[tok[1]], obj))
     doc_call = "[" + ", ".join(docp) + '].join("|")'
+    comp_code = ""
+    if companion:
+        comp_code = (f'let got = format!("{{}}|companion:{{}}", got, {companion[0]}); let reference = format!("{{}}|companion:{{}}", reference, {companion[1]}); '
+                     f'let doc = format!("{{}}|companion:{{}}", doc, {companion[1]});')
     mod = f"""use super::*;
 {decl}
 pub fn run() {{
@@ -125,6 +133,7 @@ pub fn run() {{
     {binds}
     let reference = {ref_call};
     let doc = {doc_call};
+    {comp_code}
     report({json.dumps(key)}, got, reference, doc);
 }}"""
     return mod, decl
